@@ -35,7 +35,7 @@ def gen_cases(tier, seed):
     n = 200 if tier == "quick" else 4000
     scripted = [{"kind": "recreate-script", "profile": "recreate-script", "old": old, "new": new, "via": via, "collect": collect, "stored": stored}
                 for old in ("group", "object", "data") for new in ("group", "object", "data") for via in ("workspace", "parent") for collect in (True, False) for stored in (False, True)]
-    return scripted + [{"kind": "history", "profile": ["reuse", "copy", "mixed"][i % 3], "n_ops": [10, 15, 22][i % 3] if tier == "quick" else [15, 30, 45][i % 3], "gc": ["default", "seeded", "every"][(i // 3) % 3], "refs": ["strong", "refetch", "drop"][(i // 9) % 3]} for i in range(n)]
+    return scripted + [{"kind": "history", "profile": ["reuse", "copy", "mixed"][i % 3], "n_ops": [10, 15, 22][i % 3] if tier == "quick" else [15, 30, 45][i % 3], "gc": ["default", "seeded", "every", "aggressive"][(i // 3) % 4], "refs": ["strong", "refetch", "drop"][(i // 9) % 3]} for i in range(n)]
 
 
 PROFILES = {
